@@ -14,7 +14,10 @@ Engines
     the head of every pass, no pass cut short) evaluated on the REAL traces twice - by the extracted Gallina
     predicates (cbu / one_mode / hk_ok) and by an independent Python re-implementation (they must agree) - and the
     firmware's markers / values compared with CPython's (harness/impl/pyrun_impl.py) for every N in {0,1,2,3},
-    inside the guard the model computes (transl_ok, one main loop as last item, vars_ok)."""
+    for EVERY script parse() accepts (no guard on variables since the repair of F-C05-looplocal-reinit: names first
+    assigned inside `while True:` persist); a script with anything after the main loop must be rejected with ValueError
+    (repair of F-C05-postloop-in-setup / F-C05-second-main-loop-appended) - if one is accepted again it is compared
+    with CPython like every other accepted script."""
 from __future__ import annotations
 
 import re
@@ -136,6 +139,28 @@ def bad_breaks(stmts, ld=0):
 
 def must_reject(prog):
     return sum(bad_breaks([it[1]] if it[0] == "stmt" else it[-1]) for it in prog["items"]) > 0
+
+
+def after_main(prog):
+    """a top-level statement / def / second `while True:` stands after the main loop (unreachable in Python):
+    parse() raises ValueError since the repair of F-C05-postloop-in-setup / F-C05-second-main-loop-appended"""
+    kinds = [it[0] for it in prog["items"]]
+    return "main" in kinds and kinds.index("main") < len(kinds) - 1
+
+
+def loop_first_names(prog):
+    """names whose first assignment (text order) is inside `while True:` (at any depth): sketch globals since the
+    repair of F-C05-looplocal-reinit"""
+    seen, out = set(), []
+    for it in prog["items"]:
+        if it[0] == "func":
+            continue
+        for st in walk_stmts([it[1]] if it[0] == "stmt" else it[1]):
+            if st[0] == "set" and st[1] not in seen:
+                seen.add(st[1])
+                if it[0] == "main":
+                    out.append(st[1])
+    return out
 
 
 def enc_item(it):
@@ -412,7 +437,7 @@ class Builder:
 
 def gen_program(rng, cls, force=None):
     """cls: plain | devices | vars | nested | mix | nomain | postloop | twoloops | looplocal_top | looplocal_ok | looplocal_if |
-            looplocal_for | setup_inner | break_nested | break_main | break_main_if | break_top | break_setup_for"""
+            looplocal_for | looplocal_deep | setup_inner | break_nested | break_main | break_main_if | break_top | break_setup_for"""
     b = Builder(rng)
     items = []
     mon = "mon"
@@ -462,7 +487,7 @@ def gen_program(rng, cls, force=None):
     if use_vars:
         for i in range(rng.randint(1, 3)):
             gvars.append(rng.choice(["g", "cnt", "total", "k"]) + str(i))
-    flag = "flag" if (use_nested or cls in ("looplocal_if", "setup_inner", "rebind", "rebind_x") or cls.startswith("break")) else None
+    flag = "flag" if (use_nested or cls in ("looplocal_if", "looplocal_deep", "setup_inner", "rebind", "rebind_x") or cls.startswith("break")) else None
 
     setup = []       # statements before the main loop (after mon/pm13/handlers)
     declared_devs = [mon]
@@ -572,7 +597,7 @@ def gen_program(rng, cls, force=None):
             if rng.random() < 0.5:
                 merged.append(b.free_mark(mon, allow_core))
     if cls == "setup_inner" and flag:
-        # a name first assigned two levels below setup depth 0 (re-initialised at the head of the inner block)
+        # a name first assigned two levels below setup depth 0 (hoisted twice; the inner hoisted declaration is dropped)
         w = "w0"
         merged.append(("for", 3, [("if", flag, [("set", w, ("const", 5)), ("set", flag, ("const", 0))]), ("show", mon, w)]))
     if cls == "break_top":
@@ -770,6 +795,43 @@ def gen_program(rng, cls, force=None):
             body.insert(n_fixed, ("if", flag, [("set", "c0", ("const", rng.randint(0, 3))), ("set", flag, ("const", 0))]))
             body.append(("set", "c0", ("add", "c0", 1)))
             body.append(("show", mon, "c0"))
+        if cls == "looplocal_deep":
+            # names first bound inside `while True:` behind one or two header lines (hoisted once or twice to the body level
+            # of the main loop), bound in the first pass only, accumulated and printed in every pass
+            inits, uses = [], []
+            for vi in range(rng.randint(1, 3)):
+                v = ["d0", "acc_1", "Lv2"][vi]
+                c = rng.randint(0, 5)
+                bind = ("set", v, ("const", c)) if rng.random() < 0.6 or not gvars else ("set", v, ("add", rng.choice(gvars), c))
+                form = rng.choice(["if", "if_for", "for_if", "while_if", "try_if", "if_if", "if_else", "if_try", "for_for_if"])
+                if form == "if":
+                    st = ("if", flag, [bind])
+                elif form == "if_for":
+                    st = ("if", flag, [("for", rng.randint(1, 2), [bind])])
+                elif form == "for_if":
+                    st = ("for", rng.randint(1, 2), [("if", flag, [bind])])
+                elif form == "for_for_if":
+                    st = ("for", rng.randint(1, 2), [("for", 1, [("if", flag, [bind])]), b.free_mark(mon, allow_core)])
+                elif form == "while_if":
+                    wc = f"wc{len(while_counters)}"
+                    while_counters.append(wc)
+                    st = ("seq", [("set", wc, ("const", rng.randint(1, 2))),
+                                  ("while", wc, [("set", wc, ("add", wc, -1)), ("if", flag, [bind])])])
+                elif form == "try_if":
+                    st = ("try", [("if", flag, [bind])], [b.free_mark(mon, allow_core)])
+                elif form == "if_try":
+                    st = ("if", flag, [("try", [bind], [b.free_mark(mon, allow_core)])])
+                elif form == "if_if":
+                    st = ("if", flag, [("if", flag, [bind])])
+                else:
+                    st = ("if", flag, [bind], [b.free_mark(mon, allow_core)])
+                inits.append(st)
+                uses += [("set", v, ("add", v, rng.randint(1, 3))), ("show", mon, v)]
+            body[n_fixed:n_fixed] = inits
+            # nothing between the first-pass bindings and the end of the pass may re-arm or clear the flag
+            body[:] = [st for st in body if not (st[0] == "set" and st[1] == flag)]
+            body += uses
+            body.append(("set", flag, ("const", 0)))
         if cls == "break_main":
             body.insert(rng.randint(n_fixed, len(body)), ("break",))
         if cls == "break_main_if":
@@ -777,7 +839,7 @@ def gen_program(rng, cls, force=None):
         body.append(b.mark(mon, "ser"))         # end-of-pass sentinel
         return body
 
-    if cls == "looplocal_if":
+    if cls in ("looplocal_if", "looplocal_deep", "setup_inner"):
         # make the witness meaningful: the flag starts true
         for i, it in enumerate(items):
             if it[0] == "stmt" and it[1][0] == "set" and it[1][1] == flag:
@@ -893,7 +955,7 @@ def gen_special(rng, cls, force=None, quiet=False):
             elif form == "for":
                 pre += [("for", rng.randint(1, 4), extra + [bind])]
             elif form == "for_if":
-                # two levels below depth 0 (re-initialised at the head of the inner block: outside vars_ok, compared with the model only)
+                # two levels below depth 0 (hoisted twice: the inner default-initialised declaration is dropped by the outer rewrite)
                 pre += [("set", flag, ("const", 1)), ("for", rng.randint(1, 2), [("if", flag, [bind])] + extra)]
             elif form == "while":
                 wc = new_counter()
@@ -1019,6 +1081,8 @@ def mx_script(chain, where):
     head = ["mon = SerialMonitor(9600)", "flag = 1", "g0 = 2"]
     if where == "main":
         lines = head + ["while True:", '    mon.write("s")'] + ["    " + ln for ln in inner] + ['    mon.write("e")']
+    elif chain and chain[0] == "while_true":
+        lines = head + inner            # the chain's column-0 `while True:` is the main loop: nothing may follow it
     else:
         lines = head + inner + ["while True:", '    mon.write("s")']
     return HEADER + "\n".join(lines) + "\n"
@@ -1091,6 +1155,35 @@ PERSIST_TEMPLATES = {
     "nested_try_in_if": "flag = {a}\nif flag > 0:\n    try:\n        lvl = {c1}\n    except:\n        lvl = {c2}\nelse:\n    lvl = {c3}\n"
                         "while True:\n    lvl = lvl + {k}\n    mon.write(lvl)\n",
     "helper_after_for": "for j in range({n}):\n    base = {c1}\ndef bump():\n    mon.write(base + 1)\nwhile True:\n    base = base + {k}\n    bump()\n    mon.write(base)\n",
+    # names FIRST bound inside `while True:` (sketch globals since the repair of F-C05-looplocal-reinit)
+    "loop_first_direct": "n = 0\nwhile True:\n    if n > 0:\n        mon.write(last)\n    last = n * {k} + {c1}\n    n = n + 1\n",
+    "loop_first_tuple": "n = 0\nwhile True:\n    if n > 0:\n        mon.write(a + b)\n        mon.write(b)\n    a, b = n + {c1}, n * {k}\n    n = n + 1\n",
+    "loop_first_tuple_mixed": "n = 0\nb = {c2}\nwhile True:\n    if n > 0:\n        mon.write(a - b)\n    a, b = b + {c1}, n * {k}\n    n = n + 1\n",
+    "loop_first_elif": "n = 0\nwhile True:\n    if n == 0:\n        z = {c1}\n    elif n == 1:\n        z = z + {c2}\n    else:\n        z = z + {k}\n    n = n + 1\n    mon.write(z)\n",
+    "loop_first_in_for": "n = 0\nwhile True:\n    for i in range({n}):\n        if n == 0:\n            s = {c1}\n        s = s + i\n    n = n + 1\n    mon.write(s)\n",
+    "loop_first_augmented": "n = 0\nwhile True:\n    if n == 0:\n        total = {c1}\n    total += {k}\n    n += 1\n    mon.write(total)\n",
+    "loop_first_helper_reads": "n = 0\ndef show():\n    mon.write(cnt)\nwhile True:\n    if n == 0:\n        cnt = {c1}\n    cnt = cnt + {k}\n    n = n + 1\n    show()\n",
+    "loop_first_try": "n = 0\nwhile True:\n    try:\n        if n == 0:\n            lvl = {c1}\n    except:\n        lvl = {c2}\n    lvl = lvl + {k}\n    n = n + 1\n    mon.write(lvl)\n",
+    "loop_first_if_for": "n = 0\nwhile True:\n    if n < 2:\n        for i in range(1 - n):\n            z = {c1}\n    n = n + 1\n    mon.write(z)\n",
+    "loop_first_try_while": "n = 0\nwhile True:\n    try:\n        k = 1 - n\n        while k > 0:\n            z = {c1}\n            k = k - 1\n    except:\n        mon.write(\"m9\")\n    n = n + 1\n    mon.write(z)\n",
+    "setup_if_for": "for r in range(2):\n    if r < 2:\n        for i in range(1 - r):\n            z = {c1}\n    mon.write(z)\nwhile True:\n    z = z + {k}\n    mon.write(z)\n",
+    # a name hoisted out of a loop that is itself inside a loop of the prologue (repair of F-C01-hoisted-decl-reinit)
+    "setup_double_hoist": "w = 0\nwhile w < 2:\n    for k in range(1 - w):\n        z = {c1}\n    w = w + 1\n    mon.write(z)\nwhile True:\n    z = z + {k}\n    mon.write(z)\n",
+}
+
+# anything after the main loop is unreachable in Python: parse() must reject it (or, if it ever accepts it again, the firmware
+# must still show CPython's trace)
+AFTER_MAIN_TEMPLATES = {
+    "statement": "mon.write(\"m1\")\nwhile True:\n    mon.write(\"m2\")\nmon.write(\"m3\")\n",
+    "assignment": "g = {c1}\nwhile True:\n    mon.write(g)\ng = {c2}\n",
+    "second_main_loop": "while True:\n    mon.write(\"m2\")\nwhile True:\n    mon.write(\"m3\")\n",
+    "second_main_loop_after_comment": "while True:\n    mon.write(\"m2\")\n# done\n\nwhile True:  # again\n    mon.write(\"m3\")\n",
+    "def_after": "g = {c1}\nwhile True:\n    mon.write(g)\ndef late():\n    mon.write(\"m9\")\n",
+    "if_after": "g = {c1}\nwhile True:\n    mon.write(g)\nif g > 0:\n    mon.write(\"m3\")\n",
+    "for_after": "while True:\n    mon.write(\"m2\")\nfor i in range(2):\n    mon.write(i)\n",
+    "device_after": "while True:\n    mon.write(\"m2\")\nled = Led(7)\nled.on()\n",
+    "sleep_after": "while True:\n    mon.write(\"m2\")\n    sleep({c2})\nsleep({c1})\n",
+    "only_comments_after": "while True:\n    mon.write(\"m2\")\n# the end\n\n    # indented comment\n",
 }
 
 
@@ -1128,6 +1221,31 @@ def persistence_templates(ctx, stats, thorough):
         else:
             n_ok += 1
     stats["persistence_templates"] = {"scripts": len(cases), "same_as_cpython": n_ok, "templates": sorted(PERSIST_TEMPLATES)}
+    return len(cases) + after_main_templates(ctx, stats)
+
+
+def after_main_templates(ctx, stats):
+    rng = ctx.rng
+    cases = [(name, HEADER + "mon = SerialMonitor(9600)\n" + t.format(c1=rng.randint(1, 9), c2=rng.randint(10, 19)))
+             for name, t in AFTER_MAIN_TEMPLATES.items()]
+    ts = fw.transpile_many([src for _, src in cases])
+    dist = {"rejected_ValueError": 0, "accepted": 0}
+    for (name, src), t in zip(cases, ts):
+        unreachable = name != "only_comments_after"
+        if not t["ok"]:
+            if t["exc"] != "ValueError" or not unreachable:
+                ctx.disagree(f"after-main-loop template {name}: parse() raised {t['exc']}", src, "ValueError" if unreachable else "accepted", t.get("exc"))
+            else:
+                dist["rejected_ValueError"] += 1
+            continue
+        dist["accepted"] += 1
+        bad = program_witness_failure({"src": src})
+        if bad is not None:
+            ctx.fail(f"statements written after the main loop (template {name}; unreachable in Python) are accepted and change what the firmware does: {bad[0]}",
+                     {"src": src, "input": ""}, bad[1], bad[2], key="after-main-loop")
+        elif unreachable:
+            ctx.disagree(f"after-main-loop template {name}: accepted (the model says parse() rejects it)", src, "ValueError", "accepted")
+    stats["after_main_templates"] = dict(dist, templates=sorted(AFTER_MAIN_TEMPLATES))
     return len(cases)
 
 
@@ -1519,9 +1637,8 @@ NMAX = 3
 
 
 def guard_of(flags):
-    return {"transl_ok": bool(flags[0]), "vars_persist": bool(flags[1]), "well_placed": bool(flags[2]),
-            "one_main_last": bool(flags[3]), "vars_ok": bool(flags[4]),
-            "well_placed_unique": bool(flags[5]) if len(flags) > 5 else False}
+    return {"transl_ok": bool(flags[0]), "breaks_ok": bool(flags[1]), "well_placed": bool(flags[2]),
+            "one_main_last": bool(flags[3]), "well_placed_unique": bool(flags[4])}
 
 
 def check_batch(ctx, progs, stats, known_mode=False):
@@ -1558,14 +1675,23 @@ def check_batch(ctx, progs, stats, known_mode=False):
                 if not known_mode:
                     ctx.fail("a `break` that would leave the main loop / is outside any loop was not rejected with ValueError",
                              {"src": p["src"]}, "ValueError", "accepted" if r["ok"] else r["exc"], key="break-accepted")
+        elif after_main(p):
+            # unreachable statements after the main loop: a clean rejection (ValueError) - or, if such a script is accepted,
+            # it goes through every engine below like any accepted script (the firmware must still show CPython's trace)
+            stats["after_main_loop"] = stats.get("after_main_loop", 0) + 1
+            if not r["ok"]:
+                if r["exc"] != "ValueError" and not known_mode:
+                    ctx.disagree("a script with statements after the main loop was rejected with another exception than ValueError", p["src"], "ValueError", r["exc"])
+                elif r["exc"] == "ValueError":
+                    stats["after_main_loop_rejected"] = stats.get("after_main_loop_rejected", 0) + 1
         elif not r["ok"]:
             if r["exc"] == "ValueError" and mi is not None and not mi[1]:
                 pass
             elif not known_mode:
                 ctx.disagree("parse()/emit() rejected a generated script the model accepts", p["src"], mi and mi[1], r)
             continue
-        if mi is not None and bool(mi[1]) != bool(r["ok"]):
-            ctx.disagree("break guard: model transl_ok vs parse() verdict", p["src"], bool(mi[1]), r.get("exc", "accepted"))
+        if mi is not None and bool(mi[1]) != bool(r["ok"]) and not known_mode:
+            ctx.disagree("acceptance (break guard, nothing after the main loop): model transl_ok vs parse() verdict", p["src"], bool(mi[1]), r.get("exc", "accepted"))
         if not r["ok"]:
             continue
         # ---- no BreakStmt of the IR may sit outside every inner loop node (oracle on the real Program, no guard)
@@ -1601,7 +1727,7 @@ def check_batch(ctx, progs, stats, known_mode=False):
             # compilability is C06's property; here it only means the trace engines have nothing to look at
             stats["not_compiled"] += 1
             g = rec["guard"]
-            if g and g["transl_ok"] and g["vars_ok"] and not known_mode:
+            if g and g["transl_ok"] and not known_mode:
                 ctx.disagree("generated script inside the guard did not compile/run under the mock", p["src"], None,
                              (o["compile_log"] or o["stderr"])[-600:])
             continue
@@ -1673,7 +1799,7 @@ def check_batch(ctx, progs, stats, known_mode=False):
             if mo[0] != 0 or got != (ok_cbu, ok_one, hk, hk_setup):
                 ctx.disagree("extracted monitors (cbu, one_mode, hk_ok) vs their Python re-implementation on a real trace",
                              p["src"], mo, [ok_cbu, ok_one, hk, hk_setup])
-        g = rec["guard"] or {"transl_ok": True, "vars_persist": True, "well_placed": True, "one_main_last": True, "vars_ok": True}
+        g = rec["guard"] or {"transl_ok": True, "breaks_ok": True, "well_placed": True, "one_main_last": True}
         stats["monitor_runs"] += 1
         if g["well_placed"] or known_mode:
             stats["in_guard_placement"] += 1
@@ -1716,15 +1842,21 @@ def check_batch(ctx, progs, stats, known_mode=False):
         if i in pyjob_of:
             po = pyouts[pyjob_of[i]]
             rec["py"] = po
-            inside = g["transl_ok"] and g["vars_ok"] and g["one_main_last"]
-            if inside and not g["vars_persist"]:
+            # every script parse() accepted is compared with CPython, unless the run leaves Python's defined behaviour:
+            # the model's reference run reads a name that has no value (CPython: NameError) - then nothing is demanded
+            me = m_ex[i]
+            py_undefined = me is not None and bool(me[6])
+            inside = not py_undefined
+            if py_undefined:
+                stats["python_reads_unbound_name"] = stats.get("python_reads_unbound_name", 0) + 1
+            if inside and loop_first_names(p):
                 stats["inside_with_loop_locals"] = stats.get("inside_with_loop_locals", 0) + 1
             if inside and p.get("promoted"):
                 stats["inside_with_block_bound_names"] = stats.get("inside_with_block_bound_names", 0) + 1
             if po["exc"] is not None:
                 stats["py_exc"] += 1
                 if inside and not known_mode:
-                    ctx.disagree("CPython raised on a generated script inside the guard (generator bug)", p["src"], None, po["exc"])
+                    ctx.disagree("CPython raised on a generated script whose reference run in the model reads no unbound name (generator bug)", p["src"], None, po["exc"])
                 continue
             ps, pl = py_project(po["events"], p)
             fs, fl = user_obs(setup_a, p), [user_obs(t, p) for t in passes_a]
@@ -1741,9 +1873,8 @@ def check_batch(ctx, progs, stats, known_mode=False):
             rec["py_diff"] = diff
             if inside:
                 stats["in_guard_python"] += 1
-                # model's own reference run must agree with CPython as well
-                me = m_ex[i]
-                if me is not None and not bool(me[6]):
+                # model's own reference run must agree with CPython as well (for the programs the model accepts)
+                if me is not None and not bool(me[6]) and g["transl_ok"]:
                     mps = user_obs([dec_ev(e) for e in me[4]], p)
                     mpl = [user_obs([dec_ev(e) for e in t], p) for t in me[5]]
                     while len(mpl) < NMAX:
@@ -1843,24 +1974,43 @@ def lexical_witness_failure(w):
     return None
 
 
+def program_witness_failure(w):
+    """The property's own relation on one script (reject-or-preserve): parse() raises ValueError (a clean rejection), or the
+    firmware's serial lines / delays / Core writes are CPython's, phase by phase, for N = 0..3 (by prefix).
+    -> None when it holds, else (what, expected, observed)"""
+    t = fw.transpile_many([w["src"]])[0]
+    if not t["ok"]:
+        if t["exc"] == "ValueError":
+            return None
+        return ("parse()/emit() failed with an exception other than ValueError", "accepted or ValueError", t.get("exc"))
+    o = fw.run_sketches([{"cpp": t["cpp"], "input": w.get("input", ""), "loops": NMAX}])[0]
+    if not o["compiled"] or o["rc"] != 0:
+        return ("the firmware did not compile / run to the end of pass %d" % NMAX, "rc 0", (o["compile_log"] or o["stderr"] or str(o["rc"]))[-400:])
+    po = fw.pyrun_many([{"src": w["src"], "input": w.get("input", ""), "loops": NMAX}])[0]
+    if po["exc"] is not None:
+        return ("CPython raised on the witness", None, po["exc"])
+    f_obs, p_obs = _generic_obs(o["events"], False), _generic_obs(po["events"], True)
+    if f_obs != p_obs:
+        return ("firmware and CPython differ on what the script prints (setup, then N = 0..%d passes by prefix)" % NMAX, {"cpython": p_obs}, {"firmware": f_obs})
+    return None
+
+
 def replay_fixed(ctx, f):
     """A repaired defect suppresses nothing: its witness is replayed on the real code and a witness that fails again is a
     property failure (VIOLATION) whose replay is that witness - never a KNOWN-FINDING line."""
     w = f["witness"]
-    if not w.get("lexical"):
-        ctx.disagree(f"fixed entry {f['id']}: no replay procedure for this witness shape", w.get("src"), None, None)
-        return "not replayed"
-    bad = lexical_witness_failure(w)
+    bad = lexical_witness_failure(w) if w.get("lexical") else program_witness_failure(w)
     if bad is None:
         return "holds"
     ctx.fail(f"the repaired defect {f['id']} is back ({f.get('fixed', 'fixed')}): {bad[0]}",
-             {"src": w["src"], "input": "", "fixed_entry": f["id"], "commit": f.get("commit")}, bad[1], bad[2], key="main-loop-header")
+             {"src": w["src"], "input": "", "fixed_entry": f["id"], "commit": f.get("commit")}, bad[1], bad[2],
+             key="main-loop-header" if w.get("lexical") else "fixed-finding-back")
     return "FAILS AGAIN: " + bad[0]
 
 
 CLASSES = ["plain", "devices", "vars", "nested", "mix", "mix", "nomain", "postloop", "twoloops", "looplocal_top",
            "looplocal_if", "looplocal_for", "setup_inner", "break_nested", "break_main", "break_main_if", "break_top",
-           "break_setup_for", "devices", "mix", "looplocal_ok",
+           "break_setup_for", "devices", "mix", "looplocal_ok", "looplocal_deep", "looplocal_deep", "looplocal_if",
            "rebind", "rebind_x", "share", "multi", "hk_many", "serial_late", "rebind", "rebind_x", "rebind"]
 
 
@@ -1974,7 +2124,7 @@ def run(ctx: C.Ctx):
     ctx.coverage.update({
         "evaluations": len(progs) + stats["monitor_runs"] + prefix_checked + n_matrix,
         "distinct_nontrivial": len({p["src"] for p in progs if any(it[0] == "main" for it in p["items"]) or p["cls"] == "nomain"}),
-        "rule": "seeded structured scripts (classes below; nested blocks are if / if-else / for / while / try-except; classes prom_*: names first bound inside an if / else / for / while / try / except block of the prologue and re-assigned by plain assignments in `while True:`; brk_*: `break` behind every chain of if / else / try / except lines up to depth 2 (3 in the thorough tier), with and without an inner for / while; plus the text-level break placement matrix incl. elif / typed and multiple handlers / nested `while True:`); every script goes through real parse() (IR compared node by node with the model), real emit() + g++ + mock core for 3 passes (trace compared with the model's exec; extracted and Python monitors on the real trace; markers/values compared with CPython for every N in 0..3 by prefix, the prefix property itself checked on a sample). non-trivial = distinct script text.",
+        "rule": "seeded structured scripts (classes below; nested blocks are if / if-else / for / while / try-except; classes looplocal_*: names first bound inside `while True:` (directly, behind an if, behind two header lines of if / for / while / try in every order) and accumulated from pass to pass; postloop / twoloops: statements / a second `while True:` after the main loop (must be rejected); classes prom_*: names first bound inside an if / else / for / while / try / except block of the prologue and re-assigned by plain assignments in `while True:`; brk_*: `break` behind every chain of if / else / try / except lines up to depth 2 (3 in the thorough tier), with and without an inner for / while; plus the text-level break placement matrix incl. elif / typed and multiple handlers / nested `while True:`); every script goes through real parse() (IR compared node by node with the model), real emit() + g++ + mock core for 3 passes (trace compared with the model's exec; extracted and Python monitors on the real trace; markers/values compared with CPython for every N in 0..3 by prefix, the prefix property itself checked on a sample). non-trivial = distinct script text.",
         "samples": [progs[1]["src"], progs[4]["src"]],
         "distribution": {"classes": cls_count, "parse_verdicts": stats["verdicts"], "ir_nodes_compared": stats["ir_nodes"],
                          "sketches_run": stats["sketches"], "sketches_not_compiled": stats["not_compiled"],
@@ -1985,7 +2135,11 @@ def run(ctx: C.Ctx):
                          "compared_with_cpython_inside_guard": n_inside, "outside_guard_not_compared": stats["outside_guard_python"],
                          "cpython_exceptions": stats["py_exc"], "prefix_runs": prefix_checked,
                          "motor_pins_checked_for_safe_stop": stats.get("motor_pins_checked", 0),
-                         "compared_with_cpython_having_loop_locals": stats.get("inside_with_loop_locals", 0),
+                         "compared_with_cpython_having_names_first_bound_inside_the_main_loop": stats.get("inside_with_loop_locals", 0),
+                         "reference_run_reads_an_unbound_name_not_compared": stats.get("python_reads_unbound_name", 0),
+                         "scripts_with_statements_after_the_main_loop": stats.get("after_main_loop", 0),
+                         "of_which_rejected_with_ValueError": stats.get("after_main_loop_rejected", 0),
+                         "after_main_loop_templates": stats.get("after_main_templates", {}),
                          "compared_with_cpython_having_names_bound_inside_prologue_blocks": stats.get("inside_with_block_bound_names", 0),
                          "scripts_that_must_be_rejected_for_a_break": stats.get("must_reject", 0),
                          "break_placement_matrix": stats.get("break_matrix", {}),
@@ -1998,7 +2152,7 @@ def run(ctx: C.Ctx):
                          "device_kinds_setup": sorted({d[0] for p in progs for d in p["devs"].values() if d[2] == "setup"}),
                          "device_kinds_loop": sorted({d[0] for p in progs for d in p["devs"].values() if d[2] == "loop"})},
         "exhaustive": False,
-        "guard": "oracle vs CPython: model says transl_ok (no rejected break), one `while True:` and it is the last top-level item (or none), vars_ok (no block below setup depth 0 / inside the loop introduces a name; a name first assigned inside `while True:` is assigned by a top-level statement of the body before anything reads it in that pass); configure-before-use monitors: model says well_placed (devices declared by top-level statements, loop-top declarations only of the hoisted kinds, Buzzer/LCD/SerialMonitor names bound once, a device name bound several times only with one main loop as last item, one mode per pin, and the static resolution check: with emit()'s bindings and dedup keys at each point of the text every statement / poll / tick / handler only touches pins configured by the hoisted block or an earlier in-place configuration). Outside: F-C05-button-rebound-unconfigured, F-C05-ultrasonic-rebound-early-measure. Outside: known findings F-C05-looplocal-reinit (vars_ok), F-C05-postloop-in-setup and F-C05-second-main-loop-appended (one_main_last). Comments are inside the guard since /repo 3df520b (F-C05-main-header-comment is kind=fixed: it excludes nothing, generated scripts carry trailing comments on the main-loop header and comment-only lines at any column, its witness is replayed first on every run). The break guard, housekeeping (hk_ok), no-pass-cut-short and motor safe-stop oracles have no guard.",
+        "guard": "oracle vs CPython: every generated script that parse() accepts and whose reference run reads no unbound name (CPython would raise NameError: outside the property) - no guard on variables (names first assigned inside `while True:`, directly or behind one or two header lines, and names hoisted twice in the prologue are generated on purpose: classes looplocal_*, setup_inner, prom_for_if, persistence templates loop_first_* and setup_double_hoist); a script with anything after the main loop must be rejected with ValueError (classes postloop, twoloops, after-main-loop templates) and is compared with CPython like any other script if it is ever accepted again; configure-before-use monitors: model says well_placed (devices declared by top-level statements, loop-top declarations only of the hoisted kinds, Buzzer/LCD/SerialMonitor names bound once, a device name bound several times only with one main loop as last item, one mode per pin, and the static resolution check: with emit()'s bindings and dedup keys at each point of the text every statement / poll / tick / handler only touches pins configured by the hoisted block or an earlier in-place configuration). Outside: F-C05-button-rebound-unconfigured, F-C05-ultrasonic-rebound-early-measure. F-C05-looplocal-reinit, F-C05-postloop-in-setup and F-C05-second-main-loop-appended are kind=fixed: they exclude nothing, their witnesses are replayed first on every run (reject-or-preserve on the witness script) and a failing one is a VIOLATION. Comments are inside the guard since /repo 3df520b (F-C05-main-header-comment is kind=fixed: it excludes nothing, generated scripts carry trailing comments on the main-loop header and comment-only lines at any column, its witness is replayed first on every run). The break guard, housekeeping (hk_ok), no-pass-cut-short and motor safe-stop oracles have no guard.",
         "unmodelled": ["devices declared inside nested blocks (outside the property's quantifier)",
                        "re-binding of a Buzzer / LCD / SerialMonitor name (not of the hoisted set; names kept unique by the guard)",
                        "which COMMAND the parser emits for a method shared by two classes when a name was bound to both (`on`/`off` of a name that was ever an RGBLed are parsed as RGBLed commands and drive the old RGB pins - configured, so not a C05 matter; a behaviour-preservation defect): likewise `read` of a name that was ever a Servo is the Servo getter; generated re-binding scripts use methods only one class has (toggle, set_color, write, set_speed, measure_distance; `read` only when the name is never a Servo)",
@@ -2006,7 +2160,7 @@ def run(ctx: C.Ctx):
                        "the lexical layer (comments, header recognition) is not in the Gallina model: the model sees the abstract program; half of the generated scripts are rendered with a trailing comment on the `while True:` header (several spacings, comment texts containing quotes, colons and header look-alikes) and comment-only lines at columns 0..16 before / between / after the statements of every block, so the real parser's handling of them is inside both engines (IR placement and traces are compared with the model of the comment-free program, and with CPython, which ignores comments); trailing comments on other lines are not generated",
                        "the order in which the emitted ButtonPoll stores __redu_button_value_<b> and calls the on_click handler (changed by /repo 97f26e6) is not observable in this model's event vocabulary (is_pressed() reads a cached sample and is no pin access; generated handlers only print markers): that clause is C15's",
                        "the value a DCMotor is stopped with / a Servo is first written with (the model has 'a write'; the harness checks on the real trace that the first write on every motor pin is a 0-write inside setup())",
-                       "names promoted out of a block inside setup() below depth 0 are re-initialised at the head of the block on every execution of it (modelled; outside vars_ok; a C01 matter, not a clause of C05)",
+                       "tuple assignment, elif chains, augmented assignment and helper functions reading a global first bound inside the main loop are not in the Gallina statement language: they are in the text-level persistence templates (firmware vs CPython)",
                        "`elif` chains, several `except` clauses, typed handlers (`except E as e:`), a nested `while True:`: not in the Gallina model; they are in the text-level break placement matrix (parse() verdict and BreakStmt placement in the real Program for every chain of header lines up to depth 2, depth 3 sampled / exhaustive in the thorough tier)",
                        "`except` handlers never run (nothing in the generated fragment raises, in CPython as in C++): the model has them for the break guard, for promotion and for the IR only; exception semantics themselves are outside C05",
                        "a nested `while x:` is modelled with 64 iterations of fuel (a run that needs more sets the outside-the-model flag; generated loops count down from <= 3)",
